@@ -299,6 +299,13 @@ theorem listDict_never_returns_partial (c : DCtx) (i : Nat) (r : Bool) :
   · intro h; simp [reListIterDict, h]
   · intro mm vs h hv; simp [reListIterDict, h, hv]
 
+/-- the `groupdict=` ladder: `None` is the group-index path of the property, a `dict` the path above, and
+anything else (a list of pairs, a str, an int, a tuple, `False`, …) is refused with `ValueError` whatever the
+two paths would have answered -/
+theorem gdDispatch_spec {α : Type} (plain dict : Except Err α) :
+    gdDispatch .none plain dict = plain ∧ gdDispatch .dict plain dict = dict ∧
+    gdDispatch .other plain dict = .error .valueError := ⟨rfl, rfl, rfl⟩
+
 /-! ### the `search_safe` guard, on the edit states of `Ccp.Edit` -/
 
 /-- **Stale config**: on a state whose checkpoint moved since the last commit (`S.stale`), `re_match`,
